@@ -9,6 +9,7 @@ import AtreeModel.Replay.Settings
 import AtreeModel.Replay.Codec
 import AtreeModel.Replay.Iter
 import AtreeModel.Replay.SlabId
+import AtreeModel.Replay.Digester
 /-
   atree_model: replays a trace (stdin) on the Lean model and compares every line the
   implementation produced with the model's own rendering.
@@ -95,6 +96,12 @@ partial def loopSlabId (h : IO.FS.Stream) (s : SidState) (n : Nat) : IO SidState
   let line := (line.dropRightWhile (fun c => c == '\n' || c == '\r'))
   loopSlabId h (s.stepLine line n) (n + 1)
 
+partial def loopDigester (h : IO.FS.Stream) (s : DigState) (n : Nat) : IO DigState := do
+  let line ← h.getLine
+  if line.isEmpty then return s
+  let line := (line.dropRightWhile (fun c => c == '\n' || c == '\r'))
+  loopDigester h (s.stepLine line n) (n + 1)
+
 def main (args : List String) : IO UInt32 := do
   let stdin ← IO.getStdin
   match args with
@@ -147,6 +154,10 @@ def main (args : List String) : IO UInt32 := do
     let s := if s.pending.isEmpty then s else s.note s!"end of trace: model expected further lines: {s.pending}"
     IO.println ("RESULT " ++ reportJson "health" s.rep)
     return (if s.rep.nMismatch == 0 then 0 else 1)
+  | ["digester"] =>
+    let s ← loopDigester stdin {} 1
+    IO.println ("RESULT " ++ reportJson "digester" s.rep)
+    return (if s.rep.nMismatch == 0 then 0 else 1)
   | _ =>
-    IO.eprintln "usage: atree_model <array|storage|health|map|world|settings|codec|iter|batch|slabid> < trace"
+    IO.eprintln "usage: atree_model <array|storage|health|map|world|settings|codec|iter|batch|slabid|digester> < trace"
     return 2
